@@ -99,13 +99,13 @@ fn map_async<F: Fam>(r: Result<F::Packet, F::Error>) -> Out<F> {
 
 /// async decoder on an always-ready slice: (outcome, bytes consumed)
 pub fn async_whole<F: Fam>(b: &[u8]) -> (Out<F>, usize) {
-    let mut rd: &[u8] = b;
+    let mut rd = BudgetSlice { data: b, pos: 0, calls: 0 };
     let r = guard(|| crate::env::run_ready(F::decode_async(&mut rd)));
-    let used = b.len() - rd.len();
+    let used = rd.pos;
     match r {
         Ok(Some(r)) => (map_async::<F>(r), used),
         Ok(None) => (Out::Stuck, used),
-        Err(m) => (panic_out(m), used),
+        Err(m) => (stuck_or_panic(m), used),
     }
 }
 
@@ -411,18 +411,48 @@ pub fn poll_chunked<F: Fam>(b: &[u8], cuts: &[usize], pending_between: bool, rec
     PollRun { raw, panic, consumed: rd.pos, log: rd.log.clone(), spurious_pending: sp, swallowed_pending: sw, uninit_exposed: un, polls }
 }
 
+/// An always-ready slice transport with a call budget: a decoder that keeps reading at the end of
+/// the input (a spin) is stopped instead of hanging the harness.
+pub struct BudgetSlice<'a> {
+    pub data: &'a [u8],
+    pub pos: usize,
+    pub calls: usize,
+}
+
+impl<'a> AsyncRead for BudgetSlice<'a> {
+    fn poll_read(mut self: Pin<&mut Self>, _cx: &mut Context<'_>, buf: &mut ReadBuf<'_>) -> Poll<std::io::Result<()>> {
+        let me = &mut *self;
+        me.calls += 1;
+        if me.calls > me.data.len() + 64 {
+            panic!("VERIF-BUDGET: the decoder keeps reading after the end of the input ({} reads of a {}-byte input)", me.calls, me.data.len());
+        }
+        let n = buf.remaining().min(me.data.len() - me.pos);
+        buf.put_slice(&me.data[me.pos..me.pos + n]);
+        me.pos += n;
+        Poll::Ready(Ok(()))
+    }
+}
+
+fn stuck_or_panic<F: Fam>(m: String) -> Out<F> {
+    if m.starts_with("VERIF-BUDGET") {
+        Out::Stuck
+    } else {
+        panic_out(m)
+    }
+}
+
 /// fast path used by the big sweeps: poll decoder on an always-ready slice, no logging
 pub fn poll_slice<F: Fam>(b: &[u8]) -> (Out<F>, Option<(usize, usize)>, usize) {
-    let mut rd: &[u8] = b;
+    let mut rd = BudgetSlice { data: b, pos: 0, calls: 0 };
     let mut st: GenericPollPacketState<F::Header> = Default::default();
     let r = guard(|| crate::env::run_ready(GenericPollPacket::new(&mut st, &mut rd)));
-    let used = b.len() - rd.len();
+    let used = rd.pos;
     match r {
         Ok(Some(Ok((t, buf, p)))) => (Out::Pkt(p), Some((t, buf.len())), used),
         Ok(Some(Err(e))) if F::is_eof(&e) => (Out::Incomplete, None, used),
         Ok(Some(Err(e))) => (Out::Err(e), None, used),
         Ok(None) => (Out::Stuck, None, used),
-        Err(m) => (panic_out(m), None, used),
+        Err(m) => (stuck_or_panic(m), None, used),
     }
 }
 
